@@ -52,6 +52,9 @@ def case_s():
     return st.fixed_dictionaries({
         "svc": st.sampled_from(["cam", "cam", "vam", "vam", "vam_cluster", "denm"]),
         "cluster_state": st.sampled_from(["leader", "leader_breakup", "join_notify", "join_cancelled", "left", "standalone"]),
+        # how long the join notification / break-up warning has been running when the first report arrives (the remaining time goes
+        # into joinTime / breakupTime in quarter seconds, constrained to 1..255: the last quarter second is the edge)
+        "cluster_age_ms": st.sampled_from([0, 0, 1000, 2400, 2600, 2700]),
         "station_type": st.integers(0, 15), "station_id": st.one_of(st.sampled_from([0, 1, 4294967295]), st.integers(0, 4294967295)),
         "role": st.integers(0, 15),
         "t0_ms": st.one_of(st.sampled_from([0, 1, 65535, 65536, 65537, 500]), st.integers(0, 200000)),
@@ -303,6 +306,8 @@ def run_vam(case, clock, vs, clustered):
     btp = fac.RecBTP(clock)
     cm = make_cluster_manager(case["cluster_state"], clock, case["station_id"]) if clustered else None
     want_state = case["cluster_state"] if clustered else None
+    if clustered and want_state in ("join_notify", "leader_breakup") and case.get("cluster_age_ms"):
+        clock.advance(case["cluster_age_ms"] / 1000.0)
     mgr = VAMTransmissionManagement(btp, fac.coder("vam"), DeviceDataProvider(station_id=case["station_id"], station_type=case["station_type"]), clustering_manager=cm)
     for i, rep in enumerate(case["reports"]):
         clock.advance(0.25)
